@@ -15,6 +15,8 @@ CLAIMED = {
          'Loads near the cap, several instances per node, programs absent / disabled per instance, concurrent application starts, restarts of instances; one known finding (concurrent applications ignore each other\'s requested loads), one repaired defect (duplicated identifiers in the node map)'),
  'C14': ('6/C14', 'Placement of every start request recomputed from the requester view: CONFIG / LESS_LOADED / MOST_LOADED / LESS_LOADED_NODE / MOST_LOADED_NODE / LOCAL optimality over the independently computed eligible set (ties accepted), SINGLE_INSTANCE one target and SINGLE_NODE one machine per application plan.',
          'Strategy optimality is only judged when the requester has no other outstanding request (loads are then unambiguous); the strategy is attributed from the operation log (explicit strategy of the last accepted start/restart_application) or the application rules'),
+ 'C05': ('6/C05', 'Conciliation episodes of the Master (entered on STATE publication, closed on return to OPERATION) in runs where duplicates come from direct supervisor.startProcess and from partition heals, all six strategies: detection at the tick (idle Master, managed conflict persisting), exact stop set per strategy from the requests pushed by the Master (true spawn times of the copies from the simulator, with the documented uptime tolerance), nothing outside the conflict set, at most one restart per round, USER inert, no conflict left at exit.',
+         'Episodes overlapping a fault are not judged (quantifier has none during conciliation); wrong copy kept because of a stale Master view is a recorded consequence of the C12 findings'),
  'C07': ('6/C07', 'Per (observer, peer) monitor in every simulated run: a RUNNING/CHECKED peer declared FAILED/STOPPED/ISOLATED must be justified by silence (> inactivity_ticks local ticks since the last TICK delivered to the listener), a failed XML-RPC, or a restart; a silent peer must be out of the active states at the stated tick and invalidated by the next; fencing rule; lost processes unlisted and FATAL; instance state graph incl. ISOLATED final and local never ISOLATED.',
          'Accuracy is judged on deliveries observed by the simulator (sound under any delay); crash / restart (stealth) / partition (refuse, blackhole, directed) / heal / stall / slow links, inactivity_ticks 2-5, both auto_fence values'),
  'C08': ('6/C08', 'Liveness after faults stop: crash / restart / healed partitions / process failures placed in every FSM state (triggers on ELECTION, DISTRIBUTION, CONCILIATION), then >= 200 s + synchro_timeout of simulated quiet; every member of every satisfiable component must be in OPERATION (CONCILIATION with USER and a real conflict) with no job pending.',
